@@ -23,6 +23,8 @@ func checkC18(p *Prog, r *Report) {
 	c18TagLookups(p, r)
 	c18ByNameLookups(p, t, r)
 	c18FilterValuesUsed(p, r, "R6v")
+	// the function a sender names is accepted by the receiving Data(): neither side indexes or slices unguarded (mechanism: wire-optional data)
+	r.ImportRules(p, "C05", checkC05, map[string]string{"R2": "R9"})
 	r.Assumes("struct tags are read with the same splitting rules as model.EEBusTags (',' then ':')",
 		"encoding/json and the SHIP JSON transformation are outside the analysis")
 }
